@@ -455,6 +455,19 @@ pub fn get_best_move_entry(
     Some((best_move, best_score, false))
 }
 
+/// The move to play when the search was stopped before its first iteration completed:
+/// the cached best move of this position if it is legal here, otherwise the first legal move
+fn fallback_move(game: &Game, table: &TranspositionTable) -> Option<Move> {
+    let mut moves = ArrayVec::new();
+    game.clone().get_moves(&mut moves, true);
+
+    table
+        .get(&game.hash())
+        .and_then(|entry| entry.pv)
+        .filter(|cached_move| moves.contains(cached_move))
+        .or(moves.first().copied())
+}
+
 /// This function repeatedly calls get_best_move with increasing depth,
 /// until `continue_running` is set to false, at which point it returns the best move found so far
 pub fn get_best_move_until_stop(
@@ -487,7 +500,8 @@ pub fn get_best_move_until_stop(
         let Some((best_move, best_score, is_only_move)) =
             get_best_move_entry(game.clone(), continue_running, depth, table, &mut history)
         else {
-            return found_move;
+            // Stopped before any iteration could finish: still answer with a legal move
+            return found_move.or_else(|| fallback_move(game, table));
         };
 
         let mut hash = game.hash();
